@@ -295,6 +295,8 @@ def _run_hyp(res, pid, sub, tier, seed, shard, nshards):
             st["fails"] += 1
             vj = v.to_json()
             st["best"] = (vj.pop("case", None) or case, vj)
+            if st.get("first") is None:
+                st["first"] = (case, dict(vj))  # the generated (unshrunk, untruncated) case
             if st["fails"] > budget:
                 st["stop"] = True
             raise
@@ -309,6 +311,8 @@ def _run_hyp(res, pid, sub, tier, seed, shard, nshards):
     if st["best"] is not None:
         case, vio = st["best"]
         res["failure"] = {"case": case, "violation": vio}
+        if st.get("first") is not None:
+            res["failure"]["first_case"] = st["first"][0]
     res["nontrivial"] = sorted(seen_nt)
 
 
@@ -341,6 +345,7 @@ def main(argv=None):
     ap.add_argument("--scale", type=float, default=float(os.environ.get("VERIF_SCALE", "1")))
     ap.add_argument("--jobs", type=int, default=int(os.environ.get("VERIF_JOBS", "16")))
     ap.add_argument("--no-evidence", action="store_true")
+    ap.add_argument("--json", action="store_true", help="with --replay: print the violation as one JSON line")
     args = ap.parse_args(argv)
     pid = args.property.upper()
     seed = int(os.environ.get("VERIF_SEED", "1") or "1")
@@ -354,7 +359,7 @@ def main(argv=None):
         return 2
 
     if args.replay:
-        return _do_replay(pid, prop, args.replay)
+        return _do_replay(pid, prop, args.replay, as_json=args.json)
 
     subs = prop["subchecks"]
     if args.only:
@@ -442,8 +447,18 @@ def main(argv=None):
                 harness_errors.append(f"replay of failure in {r['sub']}:\n{traceback.format_exc()}")
                 continue
             if vio2 is None:
-                harness_errors.append(f"{r['sub']}: failure did not reproduce on replay: {vio}")
-                continue
+                # The failure depended on state left in the worker process by earlier cases (module globals,
+                # class attributes, caches of the code under test).  The replay command runs in a fresh
+                # interpreter, so that is where the case must fail to be a reportable violation.
+                vio2 = _replay_in_fresh_process(pid, r["sub"], case)
+                if vio2 is None and r["failure"].get("first_case") is not None:
+                    # shrinking inside a polluted process can produce a case that is not self-contained:
+                    # fall back to the case as it was generated
+                    case = r["failure"]["first_case"]
+                    vio2 = _replay_in_fresh_process(pid, r["sub"], case)
+                if vio2 is None:
+                    harness_errors.append(f"{r['sub']}: failure did not reproduce on replay (neither in-process nor in a fresh process): {vio}")
+                    continue
             e = known_match(pid, vio2["sig"], known)
             if e is not None:
                 line = f"KNOWN-FINDING: property={pid} {e['id']}: {e['what']}"
@@ -496,10 +511,41 @@ def main(argv=None):
     return 0
 
 
-def _do_replay(pid, prop, path):
+def _replay_in_fresh_process(pid, sub_name, case):
+    import subprocess
+    import tempfile
+
+    with tempfile.NamedTemporaryFile("w", suffix=".json", delete=False) as f:
+        json.dump({"property": pid, "sub": sub_name, "case": case}, f)
+        tmp = f.name
+    try:
+        p = subprocess.run(
+            [sys.executable, "-B", os.path.join(ROOT, "run_check.py"), pid, "--replay", tmp, "--json"],
+            capture_output=True,
+            text=True,
+            timeout=1800,
+            cwd=ROOT,
+        )
+        for line in p.stdout.splitlines():
+            if line.startswith("REPLAY-JSON "):
+                d = json.loads(line[len("REPLAY-JSON ") :])
+                if d is not None:
+                    d["sig"]["fresh_process_only"] = True
+                return d
+        return None
+    except Exception:
+        return None
+    finally:
+        os.unlink(tmp)
+
+
+def _do_replay(pid, prop, path, as_json=False):
     with open(path) as f:
         doc = json.load(f)
     vio, ctx = replay_case(prop, doc["sub"], doc["case"], exclude_known=False)
+    if as_json:
+        print("REPLAY-JSON " + json.dumps(vio))
+        return 0 if vio is None else 1
     if vio is None:
         print(f"[{pid}] replay {path}: no violation (labels={sorted(ctx.labels)})")
         return 0
